@@ -26,6 +26,18 @@ impl MetricTrait for Counter {
     }
 }
 
+#[cfg(sentinel_verif)]
+#[doc(hidden)]
+impl Counter {
+    /// (target, total), for hidden-state comparison in the verification harness
+    pub fn verif_get(&self) -> (u64, u64) {
+        (
+            self.target.load(Ordering::SeqCst),
+            self.total.load(Ordering::SeqCst),
+        )
+    }
+}
+
 pub type CounterLeapArray = LeapArray<Counter>;
 
 impl CounterLeapArray {
